@@ -422,6 +422,12 @@ class ModuleVistor(NodeVisitor):
                 pass
             else:
                 if origin_module.all is None or origin_name not in origin_module.all:
+                    if isinstance(ob, model.Module):
+                        # A module is analysed where Python imports it: its relative imports
+                        # are relative to the package it is written in, not to the one it is
+                        # re-exported by (a star import does not process the submodules it
+                        # takes, unlike 'from package import submodule').
+                        self.system.getProcessedModule(ob.fullName())
                     self.system.msg(
                         "astbuilder",
                         "moving %r into %r" % (ob.fullName(), current.fullName())
